@@ -113,10 +113,10 @@ impl<T: ZeroCopy + DeserializeInner, const N: usize> DeserializeHelper<Zero> for
     ) -> deser::Result<<Self as DeserializeInner>::DeserType<'a>> {
         backend.align::<T>()?;
         let bytes = std::mem::size_of::<[T; N]>();
-        let (pre, data, after) = unsafe { backend.data[..bytes].align_to::<[T; N]>() };
-        debug_assert!(pre.is_empty());
-        debug_assert!(after.is_empty());
-        let res = &data[0];
+        // SAFETY: we just checked the alignment, and the slice has exactly
+        // size_of::<[T; N]>() bytes. We do not use align_to, as it returns
+        // an empty slice for zero-sized arrays.
+        let res = unsafe { &*(backend.data[..bytes].as_ptr() as *const [T; N]) };
         backend.skip(bytes);
         Ok(res)
     }
